@@ -29,6 +29,45 @@ def gen_cases(seed, n, **opt):
         g = gen.Gen(seed * 7000003 + i, **opt)
         s, data = gen.ambiguous_union_case(g)
         cases.append((s, data, {}, g.r.random() < 0.5))
+    # a nullable field whose default is NOT null (null is a later branch): present-and-None, omitted, and a value are
+    # three different data
+    import random as _random
+    for i in range(max(4, n // 40)):
+        r = _random.Random(seed * 31337 + i)
+        T, dv, val = r.choice([("string", "anonymous", "x"), ("int", 7, -1), ("long", 2 ** 40, 5), ("boolean", True, False),
+                               ("double", 1.5, 0.25), ({"type": "array", "items": "int"}, [1, 2], [3]),
+                               ({"type": "enum", "name": "Size", "symbols": ["S", "M"]}, "M", "S")])
+        null_spelling = r.choice(["null", {"type": "null"}])
+        s = {"type": "record", "name": "Profile", "fields": [
+            {"name": "id", "type": "int"},
+            {"name": "nick", "type": [T, null_spelling], "default": dv},
+            {"name": "tail", "type": ["null", "string"], "default": None}]}
+        data = [{"id": 1, "nick": None, "tail": "t"}, {"id": 2, "tail": None}, {"id": 3, "nick": val}, {"id": 4, "nick": None}]
+        cases.append((s, data, {}, r.random() < 0.5))
+    # arrays / maps nested three and four deep, outer collections with several entries, inner ones empty and non-empty
+    for i in range(max(4, n // 40)):
+        r = _random.Random(seed * 27183 + i)
+        leaf = r.choice(["int", "string", ["null", "long"]])
+        kinds = [r.choice(["array", "map"]) for _ in range(r.choice([3, 3, 4]))]
+        s = leaf
+        for k in reversed(kinds):
+            s = {"type": "array", "items": s} if k == "array" else {"type": "map", "values": s}
+        if r.random() < 0.4:
+            s = {"type": "record", "name": "Deep", "fields": [{"name": "d", "type": s}, {"name": "after", "type": "int"}]}
+
+        def mk(t, depth):
+            if isinstance(t, dict) and t.get("type") == "array":
+                return [mk(t["items"], depth + 1) for _ in range(r.choice([0, 1, 2, 3]) if depth else r.choice([2, 3]))]
+            if isinstance(t, dict) and t.get("type") == "map":
+                return {"k%d" % j: mk(t["values"], depth + 1) for j in range(r.choice([0, 1, 2]) if depth else r.choice([2, 3]))}
+            if isinstance(t, dict) and t.get("type") == "record":
+                return {"d": mk(t["fields"][0]["type"], 0), "after": 42}
+            if t == "int":
+                return r.randint(-100, 100)
+            if t == "string":
+                return r.choice(["", "ab"])
+            return r.choice([None, 2 ** 33])
+        cases.append((s, [mk(s, 0) for _ in range(3)], {}, r.random() < 0.5))
     return cases
 
 
@@ -95,7 +134,9 @@ def run(tier, seed):
         elif not corr_ok:
             case["impl"], case["model"] = ie, me
             run.fail(case, "correspondence: enc differs between implementation and model", kind="correspondence")
-    # ---- back-to-back values on one stream
+    # ---- back-to-back values on one stream, for every kind of input stream (BytesIO, an object with read() only,
+    # an unbuffered forward-only io stream, a buffered reader over one); one schemaless_reader call per value
+    from props.streams import input_kinds
     for ci, (s, data, opts, parsed) in enumerate(cases[:scale(tier, 300)]):
         try:
             ps = fastavro.parse_schema(json.loads(json.dumps(s)))
@@ -103,34 +144,77 @@ def run(tier, seed):
             continue
         fo = io.BytesIO()
         written = []
+        alone = []
         try:
             for v in data:
                 fastavro.schemaless_writer(fo, ps, v, **impl.wopts_kw(opts))
                 written.append(fo.tell())
+                b1 = io.BytesIO()
+                fastavro.schemaless_writer(b1, ps, v, **impl.wopts_kw(opts))
+                alone.append(canon(to_wire(fastavro.schemaless_reader(io.BytesIO(b1.getvalue()), ps))))
         except Exception:
             continue
-        fo.seek(0)
-        singles = []
-        ok = True
         why = None
-        for j, v in enumerate(data):
-            try:
-                r1 = fastavro.schemaless_reader(fo, ps)
-            except Exception as e:
-                why = "stream read %d raised %r" % (j, e)
+        for kind, stream, consumed in input_kinds(fo.getvalue()):
+            for j, v in enumerate(data):
+                try:
+                    r1 = fastavro.schemaless_reader(stream, ps)
+                except Exception as e:
+                    why = "%s: stream read %d raised %r" % (kind, j, e)
+                    break
+                if consumed is not None and consumed() != written[j]:
+                    why = "%s: after value %d the stream is at %d, writer was at %d" % (kind, j, consumed(), written[j])
+                    break
+                if alone[j] != canon(to_wire(r1)):
+                    why = "%s: value %d read from the stream differs from the value read alone" % (kind, j)
+                    break
+            run.count({"stream": s, "n": len(data), "kind": kind}, False, ["stream:" + kind])
+            if why:
                 break
-            if fo.tell() != written[j]:
-                why = "after value %d the stream is at %d, writer was at %d" % (j, fo.tell(), written[j])
-                break
-            b1 = io.BytesIO()
-            fastavro.schemaless_writer(b1, ps, v, **impl.wopts_kw(opts))
-            alone = fastavro.schemaless_reader(io.BytesIO(b1.getvalue()), ps)
-            if canon(to_wire(alone)) != canon(to_wire(r1)):
-                why = "value %d read from the stream differs from the value read alone" % j
-                break
-        run.count({"stream": s, "n": len(data)}, False, ["stream"])
         if why:
-            run.fail({"schema": s, "values": [to_wire(v) for v in data], "opts": opts}, why, kind="oracle")
+            run.fail({"schema": s, "values": [to_wire(v) for v in data], "opts": opts, "tags": ["stream"]}, why, kind="oracle")
+    # ---- one unparsed schema OBJECT used, edited in place, used again: every call sees the object's current content
+    import copy
+    import random as _random
+    for i in range(scale(tier, 40)):
+        rr = _random.Random(seed * 4441 + i)
+        obj = {"type": "record", "name": "Evolving", "fields": [{"name": "id", "type": "int"},
+                                                                {"name": "name", "type": "string", "default": "anon"}]}
+        steps = []
+        why = None
+        for step in range(3):
+            datum = {"id": step}
+            for f in obj["fields"][1:]:
+                if rr.random() < 0.6 or "default" not in f:
+                    datum[f["name"]] = {"string": "s%d" % step, "int": step, "long": 10 ** 10 + step, "boolean": True,
+                                        "double": 0.5}[f["type"] if isinstance(f["type"], str) else "int"]
+            fresh = copy.deepcopy(obj)
+            try:
+                fo1, fo2 = io.BytesIO(), io.BytesIO()
+                fastavro.schemaless_writer(fo1, obj, datum)
+                fastavro.schemaless_writer(fo2, fresh, datum)
+                got = fastavro.schemaless_reader(io.BytesIO(fo1.getvalue()), obj)
+                exp = fastavro.schemaless_reader(io.BytesIO(fo2.getvalue()), copy.deepcopy(obj))
+            except Exception as e:  # noqa
+                why = "step %d raised %r" % (step, e)
+                break
+            steps.append(copy.deepcopy(obj))
+            run.cov["evaluations"] += 1
+            run.tag("same-object-edited")
+            if fo1.getvalue() != fo2.getvalue() or canon(to_wire(got)) != canon(to_wire(exp)):
+                why = "step %d: the schema object edited in place gives another result than a fresh copy of it" % step
+                break
+            # edit in place
+            k = rr.random()
+            if k < 0.4:
+                obj["fields"].append({"name": "n%d" % step, "type": rr.choice(["int", "long", "boolean", "double"]), "default": {"int": 1, "long": 2, "boolean": False, "double": 1.5}["int"] if False else 0})
+                obj["fields"][-1]["default"] = {"int": 1, "long": 2, "boolean": False, "double": 1.5}[obj["fields"][-1]["type"]]
+            elif k < 0.7:
+                obj["fields"][1]["default"] = "other%d" % step
+            else:
+                obj["fields"][0]["type"] = "long" if obj["fields"][0]["type"] == "int" else "int"
+        if why:
+            run.fail({"schema_states": steps, "schema_now": copy.deepcopy(obj), "tags": ["same-object-edited"]}, why, kind="oracle")
     # ---- omitted bytes / fixed fields whose default is the JSON string the specification prescribes
     import io as _io
     for ftype, dflt, want in (("bytes", "\u00ffa", b"\xffa"), ({"type": "fixed", "name": "Fx", "size": 2}, "ab", b"ab")):
